@@ -234,4 +234,26 @@ PROPS = {
         ],
         "assumptions": [],
     },
+    "C19": {
+        "propfile": "PropC19.v",
+        "n": {"quick": 120, "thorough": 2000},
+        "corr": "(needs-signature, error) of PolicyVerifier.VerifyMergeable vs Mergeable.verify_mergeable; VerifyRefFull after the merge is recorded "
+                "by each candidate recorder vs World.verify_full; and, on the implementation's own answers, the three-way agreement clause of the property",
+        "rule": "policy: rule protect-main over a random subset of 4 single-key principals with threshold 1..3, in a quarter of the cases a global "
+                "threshold rule (k 1..3; pattern main, nomatch or *); history: main pushed under a first policy, then the policy under test, a feature "
+                "branch of 1-3 commits on main's tip; approvals: an authorization for (main, from=main's tip, to=tree of the merge) signed by 0-3 of "
+                "{4 rule/other principal keys, root key}, sometimes for a different tree, sometimes absent; the merge is recorded as the feature tip "
+                "(fast-forward) or as a merge commit carrying the predicted tree, by each of 6 recorders (keys 4..7, root key, unsigned) on a fresh "
+                "copy of the history. Every case is non-trivial (each runs VerifyMergeable and 6 verifications)",
+        "theorems": ["C19_prediction_meaning", "C19_outsider_changes_nothing", "C19_unsigned_is_outsider", "C19_unauthorised_is_outsider",
+                     "C19_refuted_no_approvals_never_possible", "C19_refuted_threshold_one_verifies", "C19_refuted_K6", "C19_refuted_K9",
+                     "C19_refuted_shared_keys"],
+        "trusted": [
+            "partial: the clause 'signature needed => verifies exactly for authorised, not yet counted recorders' and the lift of the verifier-level "
+            "theorems through the verification loop are evaluated per case on the implementation's answers (c19_check), not proved",
+            "file rules, code-review approvals (app attestations) and non-fast-forward three-way merges (GetMergeTree on diverged branches) are not generated",
+            "principals sharing keys are excluded from the histories (State.allPrincipals lists principals in map order); the shared-key refutation is a verifier-level theorem tied by the C05 correspondence",
+        ],
+        "assumptions": ["the branch's previous entry is unskipped and no policy or attestation entry is recorded between prediction and merge (as the property states)"],
+    },
 }
